@@ -10,7 +10,7 @@ import (
 
 func init() {
 	register("C06",
-		"Decides the structural premises of 'serial and never stranded': every OnRequest/OnConnect invocation is at Held(processing); after the handler task releases the lock its first action is to re-read the closing state and the input length, and a positive length leads to a new trylock and back to the OnRequest test (unlock -> re-check, the handler side of the Dekker pair); the poller publishes the new length (bookAck) before it tries the lock or reads waitReadSize, and tries whenever the buffer was empty before; SetOnRequest stores the handler before testing for buffered input; buffered input is offered before the close callbacks; onRequest defers to an unfinished OnConnect. Not decided: fairness of the task runner, a handler that never drains.",
+		"Decides the structural premises of 'serial and never stranded': every OnRequest/OnConnect invocation is at Held(processing); after the handler task releases the lock its first action is to re-read the closing state and the input length, and a positive length leads to a new trylock and back to the OnRequest test (unlock -> re-check, the handler side of the Dekker pair); the poller publishes the new length (bookAck) before it tries the lock or reads waitReadSize, and tries whenever the buffer was empty before; SetOnRequest stores the handler before testing for buffered input; buffered input is offered before the close callbacks; onRequest defers to an unfinished OnConnect. On hang-up the poller runs the callbacks itself only after it saw the buffer empty / no handler / a busy task (F16). Not decided: fairness of the task runner, a handler that never drains.",
 		[]string{"sync/atomic is linearizable", "runner.RunTask eventually runs the task"},
 		func(r *Run) {
 			cfgs := []string{"linux"}
